@@ -91,6 +91,10 @@ fn check(c: &Case, st: &mut Stats) -> Result<(), String> {
     if let Some(th) = threshold(c.backend) {
         dec.verif_set_sparse_threshold(th);
     }
+    let mut dec_mixed = Decoder::new(cfg);
+    if let Some(th) = threshold(c.backend) {
+        dec_mixed.verif_set_sparse_threshold(th);
+    }
     let mut dec_stream = Decoder::new(cfg);
     if let Some(th) = threshold(c.backend) {
         dec_stream.verif_set_sparse_threshold(th);
@@ -200,6 +204,29 @@ fn check(c: &Case, st: &mut Stats) -> Result<(), String> {
             None => {
                 if all_source {
                     return Err(format!("all source packets of every block delivered, yet get_result() answers 'not yet' (step {step})"));
+                }
+            }
+        }
+        // a third decoder on which the two interfaces are mixed packet by packet
+        let via_decode = crate::util::mix(spec.seed, step as u64) % 2 == 0;
+        let mixed = if via_decode {
+            dec_mixed.decode(pkt.clone())
+        } else {
+            dec_mixed.add_new_packet(pkt.clone());
+            dec_mixed.get_result()
+        };
+        match mixed {
+            Some(out) => {
+                if out.len() != f {
+                    return Err(format!("mixed use of decode()/add_new_packet(): returned {} bytes, transfer length is {f} (step {step}, via {})", out.len(), if via_decode { "decode" } else { "get_result" }));
+                }
+                if out != data {
+                    return Err(format!("mixed use of decode()/add_new_packet(): returned a wrong object at step {step}"));
+                }
+            }
+            None => {
+                if all_source {
+                    return Err(format!("mixed use of decode()/add_new_packet(): all source packets delivered, yet 'not yet' (step {step})"));
                 }
             }
         }
@@ -334,7 +361,7 @@ fn signature(_: &Case, msg: &str) -> String {
 }
 
 pub fn run(ctx: &Ctx, rep: &mut Report) {
-    rep.rule = "generated object (Al in {1,2,4,8}, T multiple of Al up to 192 weighted to 1/Al/63,64,65 strides, Z <= 6, N <= 5, K per block <= 64 (quick), F with F mod T uniform incl. F < T and F = 1, data in {random, zero, 0xFF, one-hot, position-coded}) and a delivery history: a generated list of indices (with repetition) into the pool of the encoder's source packets plus repair packets with near/uniform/far ESIs, in half the cases completed with every missing source packet; optional serialize/deserialize; decoder back-end default/sparse/dense. A separate group has many blocks (Z in 7..=255 weighted to 126..130 and 250..255, 1..4 symbols per block, histories up to 3000 deliveries). A group of wide symbols has Al in {1,2,4,5,8,32,128,255}, T up to 65535 and N up to T/Al (weighted across 255/256/257) on objects of at most 12 symbols. A group 'hugepool' has one block of at most 12 symbols and 65 500..66 500 repair packets, all delivered, so that the final batch calls carry more than 2^16 distinct symbols. A further group has objects of more than 2^16 symbols in total (Kt 40 000..100 000 weighted to 65 300..68 000, Z 150..=255, T <= 4), always completed. Thorough adds K around the dense/sparse switch (241..260), K in 1000..1100 and K >= 10000. Oracle: after every Decoder::decode call, and after every add_new_packet + get_result on a second decoder, the answer is None or exactly the object (length F); Some once all source packets were delivered; never back to None; the same history through per-block decoders (fed beyond their first answer) gives None or the zero-padded block, and so does one batch call with the block's distinct packets, and another one with the first source packet withheld (which forces the solver when all source packets were delivered). Non-trivial = at least one block completed through the solver (>= K distinct symbols with a source symbol missing); distinct by (object, history).".into();
+    rep.rule = "generated object (Al in {1,2,4,8}, T multiple of Al up to 192 weighted to 1/Al/63,64,65 strides, Z <= 6, N <= 5, K per block <= 64 (quick), F with F mod T uniform incl. F < T and F = 1, data in {random, zero, 0xFF, one-hot, position-coded}) and a delivery history: a generated list of indices (with repetition) into the pool of the encoder's source packets plus repair packets with near/uniform/far ESIs, in half the cases completed with every missing source packet; optional serialize/deserialize; decoder back-end default/sparse/dense. A separate group has many blocks (Z in 7..=255 weighted to 126..130 and 250..255, 1..4 symbols per block, histories up to 3000 deliveries). A group of wide symbols has Al in {1,2,4,5,8,32,128,255}, T up to 65535 and N up to T/Al (weighted across 255/256/257) on objects of at most 12 symbols. A group 'hugepool' has one block of at most 12 symbols and 65 500..66 500 repair packets, all delivered, so that the final batch calls carry more than 2^16 distinct symbols. A further group has objects of more than 2^16 symbols in total (Kt 40 000..100 000 weighted to 65 300..68 000, Z 150..=255, T <= 4), always completed. Thorough adds K around the dense/sparse switch (241..260), K in 1000..1100 and K >= 10000. Oracle: after every Decoder::decode call, after every add_new_packet + get_result on a second decoder, and on a third decoder on which the two interfaces alternate pseudo-randomly, the answer is None or exactly the object (length F); Some once all source packets were delivered; never back to None; the same history through per-block decoders (fed beyond their first answer) gives None or the zero-padded block, and so does one batch call with the block's distinct packets, and another one with the first source packet withheld (which forces the solver when all source packets were delivered). Non-trivial = at least one block completed through the solver (>= K distinct symbols with a source symbol missing); distinct by (object, history).".into();
     let n = ctx.tier.pick(50_000u64, 400_000);
     rep.absorb("small", run_sharded("C01", "small", ctx.seed, n, 32, || strategy(64, 6, 400), check, to_json, signature));
     let n = ctx.tier.pick(1_500u64, 8_000);
